@@ -3,20 +3,22 @@
 # WORLDS[name]: how to build the world's simulation binary from /repo's working tree
 #   shims:   {path inside /repo (virtual): file under /verif}   extra non-test files added to dskit packages
 #   l2:      repo files compiled from a generated copy with lock-point yields (tools/vtool l2)
+#   sel:     repo files compiled from a generated copy whose receive-only select statements ask the simulator which
+#            ready case proceeds (tools/vtool sel); applied after l2, before simos
 #   simos:   repo files compiled from a generated copy whose "os" import is the simulated disk
 #   requires: extra module requirements (exact cached versions)
 # PROPS[id]: world, evidence texts.
 
 WORLDS = {
-    "exec": {},
+    "exec": {"sel": ["ring/replication_set.go", "ring/replication_set_tracker.go"]},
     "mod": {},
     "gossip": {"shims": {"kv/memberlist/zz_verif_sim.go": "shims/memberlist_sim.go"}},
     "merge": {},
-    "ring": {"extra_pkgs": ["simkv"], "l2": ["ring/ring.go"], "simos": ["ring/tokens.go", "ring/lifecycler.go", "ring/basic_lifecycler_delegates.go"]},
+    "ring": {"extra_pkgs": ["simkv"], "l2": ["ring/ring.go"], "sel": ["ring/lifecycler.go", "ring/basic_lifecycler.go", "ring/partition_instance_lifecycler.go", "services/basic_service.go"], "simos": ["ring/tokens.go", "ring/lifecycler.go", "ring/basic_lifecycler_delegates.go"]},
     "cache": {},
     "cas": {"requires": ["github.com/anishathalye/porcupine@v1.3.0"],
             "shims": {"kv/zz_verif_sim.go": "shims/kv_sim.go", "kv/consul/zz_verif_sim.go": "shims/consul_sim.go", "kv/memberlist/zz_verif_sim.go": "shims/memberlist_sim.go"}},
-    "svc": {"l2": ["services/basic_service.go", "services/manager.go", "services/failure_watcher.go"]},
+    "svc": {"l2": ["services/basic_service.go", "services/manager.go", "services/failure_watcher.go"], "sel": ["services/basic_service.go", "services/manager.go"]},
 }
 
 _ASSUME_COMMON = [
